@@ -243,11 +243,17 @@ def gen_world(r, knobs=None):
                     p['nic'] = f'cfg_{p["name"]}'
                 if fam in ('int', 'str', 'float', 'bool', 'list', 'dict') and r.random() < 0.3:
                     p['dtype'] = fam
-                if fam == 'str' and r.random() < 0.15:
+                if fam == 'str' and r.random() < k.get('p_path', 0.15):
                     p['dtype'] = 'Path'
+                    if p['default'] != A.NO_DEFAULT and r.random() < 0.6 and (p['dpd'] or k.get('zone_pathobj')):
+                        # the declaration gives the default as a Path object, configs spell strings. Without
+                        # dont_persist_default_value this is known finding F14 (zone profile only)
+                        p['pathobj_default'] = True
                 if fam == 'placeholder':
                     p['placeholder'] = True
                     p['dpd'] = False
+                    if r.random() < 0.3:
+                        p['dtype'] = 'str'              # the substituted string is a str subclass and has to pass the dtype check
                 if fam in ('obj', 'objset', 'objlist'):
                     # default values are python objects in real code; keep object parameters required or default None
                     p['dpd'] = False
